@@ -133,9 +133,24 @@ func (a *Agent) Wait() error {
 	return nil
 }
 
+// sameStream reports whether in and out are one object, as they are for an agent serving a socket connection.
+func sameStream(in io.ReadCloser, out io.WriteCloser) (same bool) {
+	// Values of types that cannot be compared are not the same stream.
+	defer func() {
+		if r := recover(); r != nil {
+			same = false
+		}
+	}()
+	return interface{}(in) == interface{}(out)
+}
+
 func (a *Agent) readLoop() error {
 	defer a.Handler.Stop()
-	defer a.in.Close()
+	if !sameStream(a.in, a.out) {
+		defer a.in.Close()
+	}
+	// A connection that is both the input and the output is closed by the write loop,
+	// once the responses that are still to come have been written.
 	in := bufio.NewReader(a.in)
 	var buf []byte
 	request := &Request{}
